@@ -232,7 +232,7 @@ func HarnessC19Reconciler() {
 	s.Put(u)
 
 	s.FaultAt = zz.Choose("fault.at", zz.Bound(8, 10)) - 1
-	s.FaultKind = 1 + zz.Choose("fault.kind", 2)
+	s.FaultKind = 1 + zz.Choose("fault.kind", 3)
 	marked := func() bool {
 		doc := s.Doc(of.group, of.kind, "", of.name)
 		md, _ := doc["metadata"].(map[string]any)
